@@ -133,3 +133,66 @@ Proof.
   - unfold t4val, plain; cbn [ttr tk tprm t4base]. unfold msense, s; cbn [mk mcp].
     apply quad_congruence_main; assumption.
 Qed.
+
+(* ---------- SQ: rewritten as GQ (sq_to_gq, with its sign rule), then moved ---------- *)
+Ltac rs := cbn [sadd ssub smul sdiv sneg sabs ssqrt s0 s1 sofZ spi scos ssin satan RS
+                sltb sleb seqb vx vy vz nth] in *.
+
+Lemma len10 {A} (l : list A) : List.length l = 10%nat ->
+  exists a b c d e f g h i j, l = [a; b; c; d; e; f; g; h; i; j].
+Proof.
+  intros H. do 10 (destruct l as [|? l]; [discriminate|]). destruct l; [|discriminate]. repeat eexists.
+Qed.
+
+Lemma gq_fn_opp (q : list R) p : List.length q = 10%nat -> gq_fn (map Ropp q) p = - gq_fn q p.
+Proof.
+  intros H. destruct (len10 q H) as (a & b & c & d & e & f & g & h & i & j & ->).
+  destruct p as [x y z]. unfold gq_fn; cbn [map nth vx vy vz]. ring.
+Qed.
+
+Lemma sq_expand_fn (q : list R) p : List.length q = 10%nat -> gq_fn (sq_expand RS q) p = sq_fn q p.
+Proof.
+  intros H. destruct (len10 q H) as (a & b & c & d & e & f & g & h & i & j & ->).
+  destruct p as [x y z]. unfold gq_fn, sq_fn, sq_expand; rs. cbn [nth vx vy vz]. ring.
+Qed.
+
+Lemma eval_quadric_gq (q : list R) p : eval_quadric RS q p = gq_fn q p.
+Proof. destruct p as [x y z]. unfold eval_quadric, gq_fn; rs. ring. Qed.
+
+Lemma sq_expand_length (q : list R) : List.length (sq_expand RS q) = 10%nat.
+Proof. reflexivity. Qed.
+
+(* the sign rule of sq_to_gq: -1 when the SQ function is positive at (x, y, z) *)
+Definition sq_sign (q : list R) : R :=
+  if Rltb 0 (sq_fn q (mkV (nth 7 q 0) (nth 8 q 0) (nth 9 q 0))) then -1 else 1.
+
+Lemma sq_to_gq_fn (q : list R) p : List.length q = 10%nat ->
+  List.length (sq_to_gq RS q) = 10%nat /\ gq_fn (sq_to_gq RS q) p = sq_sign q * sq_fn q p.
+Proof.
+  intros H. unfold sq_to_gq, sq_sign. rewrite eval_quadric_gq, (sq_expand_fn q _ H). rs.
+  destruct (Rltb 0 _).
+  - split; [rewrite map_length; reflexivity|]. rewrite gq_fn_opp by reflexivity. rewrite (sq_expand_fn q p H). ring.
+  - split; [reflexivity|]. rewrite (sq_expand_fn q p H). ring.
+Qed.
+
+(* untransformed and transformed SQ: a QUAD whose value is sq_sign * the SQ
+   function, at the point itself resp. at the moved point *)
+Theorem frame_transform_sq : forall (q : list R) (o : R3) (b : M3 R) pt u nap (p' : R3),
+  List.length q = 10%nat -> rows_orthonormal b ->
+  let s := mkMS KSQ pt u q nap in
+  (exists c0, convert RS s = Ok [(c0, 1%Z)] /\ t4val c0 p' = sq_sign q * msense s p') /\
+  (exists c, tr_convert RS (vlist o ++ mlist b) s = Ok [(c, 1%Z)] /\
+             t4val c (to_main o b p') = sq_sign q * msense s p').
+Proof.
+  intros q o b pt u nap p' Hq Hb s. split.
+  - exists (plain QUAD (sq_to_gq RS q)). split.
+    + unfold s, convert, convert_special_quadric. cbn [mk mcp]. rewrite Hq. reflexivity.
+    + unfold t4val, plain; cbn [ttr tk tprm t4base]. unfold msense, s; cbn [mk mcp].
+      apply (sq_to_gq_fn q p' Hq).
+  - destruct (sq_to_gq_fn q p' Hq) as [Hl Hv].
+    exists (plain QUAD (transformation_quad RS (sq_to_gq RS q) (vlist o ++ mlist b))). split.
+    + unfold s, tr_convert, transformation. cbn [mk mcp].
+      destruct o as [o1 o2 o3], b as [[b1 b2 b3] [b4 b5 b6] [b7 b8 b9]]. rewrite Hq. reflexivity.
+    + unfold t4val, plain; cbn [ttr tk tprm t4base]. unfold msense, s; cbn [mk mcp].
+      rewrite quad_congruence_main by assumption. exact Hv.
+Qed.
